@@ -45,6 +45,13 @@ Lemma tsize_63 : tsize 63 = 2 ^ 64 - 1. Proof. reflexivity. Qed.
 Lemma tsize_lt64 h : (h <= 63)%nat -> tsize h < 2 ^ 64.
 Proof. intros. pose proof (tsize_mono h 63 H). rewrite tsize_63 in *. lia. Qed.
 
+Lemma tsize_lt64_inv h : tsize h < 2 ^ 64 -> (h <= 63)%nat.
+Proof.
+  intros H. destruct (le_lt_dec h 63) as [|L]; [assumption|exfalso].
+  pose proof (tsize_mono 64 h ltac:(lia)) as M. assert (tsize 64 = 2 ^ 65 - 1) as E by reflexivity.
+  rewrite E in M. change (2 ^ 65) with 36893488147419103232 in M. change (2 ^ 64) with 18446744073709551616 in H. lia.
+Qed.
+
 Global Opaque tsize tleafs.
 
 (* ================================================================== Word helpers *)
